@@ -107,6 +107,10 @@ def gen(ctx):
                 if 0 <= v <= mx and v not in seen:
                     seen.add(v)
                     cases.append(('decode', [field, cfg, v]))
+                    if cfg != 'dwarf' and (len(seen) % 3 == 0 or cfg.count('/')):
+                        # the same code read through a struct factory restored from its pickled state / a copy
+                        # (ELFStructs.__getstate__/__setstate__: how it reaches a worker process): same names
+                        cases.append(('decode', [field, cfg, v, ('pickle', 'copy', 'deepcopy')[len(cases) % 3]]))
     return cases
 
 
@@ -124,8 +128,15 @@ def _uleb(v):
 _structs_cache = {}
 
 
-def _elf_structs(cfg):
+def _elf_structs(cfg, how=None):
     from elftools.elf.structs import ELFStructs
+    if how is not None:
+        if (cfg, how) not in _structs_cache:
+            import pickle, copy
+            s, cls, e = _elf_structs(cfg)
+            r = {'pickle': lambda x: pickle.loads(pickle.dumps(x)), 'copy': copy.copy, 'deepcopy': copy.deepcopy}[how](s)
+            _structs_cache[(cfg, how)] = (r, cls, e)
+        return _structs_cache[(cfg, how)]
     if cfg not in _structs_cache:
         parts = cfg.split('/')
         mach = parts[0]
@@ -146,7 +157,7 @@ def _dwarf_structs():
     return _structs_cache['dwarf']
 
 
-def _observe(field, cfg, v):
+def _observe(field, cfg, v, how=None):
     """Parse a minimal struct carrying code v in `field`; return what the parser reports for it."""
     from elftools.common.utils import struct_parse
     if cfg == 'dwarf':
@@ -205,7 +216,7 @@ def _observe(field, cfg, v):
             from elftools.dwarf.callframe import instruction_name
             return instruction_name(v)
         raise ValueError(field)
-    s, cls, e = _elf_structs(cfg)
+    s, cls, e = _elf_structs(cfg, how)
     if field == 'sh_type':
         data = struct.pack(e + ('10I' if cls == 32 else 'IIQQQQIIQQ'), 1, v, 2, 3, 4, 5, 6, 7, 8, 9)
         return struct_parse(s.Elf_Shdr, io.BytesIO(data))['sh_type']
@@ -291,7 +302,7 @@ def evaluate(ctx, cases):
 
     dec = [(i, a) for i, (k, a) in enumerate(cases) if k == 'decode']
     reqs = []
-    for i, (field, cfg, v) in dec:
+    for i, (field, cfg, v) in [(i, a[:3]) for i, a in dec]:
         ta, tb = _cfg_tables(field, cfg)
         reqs.append(['decode', ta, _code(field, v)] if tb is None else ['decode_upd', ta, tb, v])
     dec_model = dict(zip([i for i, _ in dec], drv.batch(reqs)))
@@ -321,12 +332,13 @@ def evaluate(ctx, cases):
             ctx.record(kind, a, impl=impl, spec=spec, model=model, in_domain=in_reg and v is not None,
                        nontrivial=in_reg, key='C17/%s/%s' % (t, n))
         elif kind == 'decode':
-            field, cfg, v = a
+            field, cfg, v = a[:3]
+            how = a[3] if len(a) > 3 else None
             ta, tb = _cfg_tables(field, cfg)
             byte_v, v = v, _code(field, v)
             m = dec_model[i]                     # ['name', n] | ['raw', v] | ['err', 'MappingError']
             try:
-                got = _observe(field, cfg, byte_v)
+                got = _observe(field, cfg, byte_v, how)
             except Exception as e:
                 got = ('err', type(e).__name__)
             ctx.bump('decode_field', field)
@@ -340,6 +352,12 @@ def evaluate(ctx, cases):
                 impl = ['name', got, registry.get(got, v)]
                 spec = ['name', got, v]
                 name = got
+                if m[0] == 'name' and m[1] != got and registry.get(m[1], v) == v:
+                    # several registries name this code (OS- and processor-specific ranges overlap): the name to
+                    # report is the one the configuration's own table gives it (decode_upd: the OS/machine table
+                    # over the common one), which is a registry name for exactly this code
+                    spec = ['name', m[1], v]
+                    name = m[1]
             elif isinstance(got, int) and not isinstance(got, bool):
                 impl = ['raw', got]
                 name = m[1] if m[0] == 'name' else None
@@ -360,7 +378,7 @@ def evaluate(ctx, cases):
             if field == 'DW_OP' and m[0] != 'name' and isinstance(got, str) and got.startswith('OP:'):
                 impl = spec = model      # parse_expr's own placeholder for an unnamed opcode, not a table name
                 name = None
-            in_reg = name is not None and name in registry
+            in_reg = name is not None and (name in registry or (isinstance(got, str) and got in registry))
             table = ta
             if tb and name is not None and name in live_d.get(tb, {}):
                 table = tb
